@@ -12,4 +12,9 @@ CHECKS = {
   "text": "Generated (price class x range class x decimals x amounts) cases are checked against exact rational re-derivations of the LiquidityAmounts formulas: no over-spend, maximality up to the stated integer-rounding slack, one-sidedness by region, non-negativity, monotonicity, proportionality, closed-form agreement at 1e-30; plus add/remove round trips through UniLpMarket in both orientations with default and explicit sqrt prices. Sampled, not exhaustive: the domain is ~2^160 prices x 1.5e12 tick pairs.",
   "note": "Trusts fractions.Fraction arithmetic and the tick->ratio map (verified by C06) to place prices on range boundaries.",
  },
+ "C20": {
+  "technique": "Hypothesis generated net-value series by shape class against pure-Python definitions (O(n^2) drawdown, fsum std/cov), metamorphic rescaling, cross-form agreement",
+  "text": "Generated positive series (2..400 points, seven shape classes including 'largest absolute != largest relative decline' and never-falling) x interval x benchmark are compared with brute-force definitions of drawdown, returns in all input forms, volatility, Sharpe, alpha/beta, and with performance_metrics. Sampled exploration; float tolerance stated in the evidence.",
+  "note": "Trusts Python float arithmetic and math.fsum for the definitions; tolerance widened by the conditioning of x**(365/days).",
+ },
 }
